@@ -154,6 +154,24 @@ CLAIMED = {
              "_close_stream, _send_data).",
         technique="Coq proof (inductive invariant: every registered buffer is in the priority tree; frame lemmas) + in-Coq differential correspondence + parser-oracle fuzzing",
     ),
+    "C07": dict(
+        text="Coq theorems about the idle-timer logic of TCPServer (one restartable timer driven by Updated(idle=...), Closed, the end of "
+             "reading and shutdown): armed for exactly keep_alive_timeout, fires at exactly its deadline and never earlier, at once "
+             "on shutdown, disarmed while busy (nothing but an explicit Closed closes an unarmed connection), never re-armed once "
+             "reading is over, the transport closed at most once.  Tied to the code by replaying, through the model, the events the "
+             "real asyncio and trio TCPServer objects received under virtual time and comparing the closing instant exactly; the "
+             "property itself is checked end to end on both real TCPServer classes by an oracle of 'idle since' written from the "
+             "property text (pauses at every point of HTTP/1 histories, peer loss at every point incl. a parked pipelined request, "
+             "WebSocket, HTTP/2, shutdown).",
+        design="7/C07",
+        note="Trusted: Coq kernel + vm_compute, harness (rworker.py: virtual-time asyncio loop and trio MockClock with in-memory transports, "
+             "c07.py). Which Updated events the protocols emit is proved for HTTP/1 only (H11Proto: recycle_outcome, request -> "
+             "Updated(false)); for HTTP/2 and WebSocket it is observed end to end.  asyncio/trio cancellation and task-group semantics "
+             "are the runtimes' (real, not modelled).  F41 fixed (08e460d).  Open known findings F10 (error response inside a stream: "
+             "never idle-closed), F11 (prior-knowledge HTTP/2: never idle-closed).  Modelled not verified: asyncio/tcp_server.py, "
+             "trio/tcp_server.py (idle timer), worker_context SingleTask.",
+        technique="Coq proof (lemmas over a timed event model) + in-Coq differential correspondence on traces of the real TCPServer classes under virtual time",
+    ),
     "C08": dict(
         text="Coq theorems about a transition system of the HTTP/2 send path (StreamBuffer push/pop/drain/close, send_task, _send_data, "
              "the Body/EndBody/StreamClosed branches of stream_send, _window_updated, StreamReset and Closed handling) whose labels are "
